@@ -110,6 +110,16 @@ CHECKS["C14"] = dict(
    note="Partial: the renderers are not modelled; their independence from hash-iteration order and from unrelated types is only exercised by the runs. "
         "Trusted: Coq kernel+vm_compute, hand transcription, generators.",
    design="§5 C14")
+CHECKS["C05"] = dict(
+   text="Proof: Gate/Model.v transcribes lower_type, lower_out_type, lower_return_type, lower_callback_param, the struct / out-struct field checks and "
+        "is_ffi_safe as acceptance functions; Gate/Spec.v states the documented rules declaratively (what is allowed in inputs, outputs, returns, "
+        "callback parameters); C05_inputs / C05_outputs / C05_returns / C05_callback_params prove the two equivalent for all types (unbounded nesting) "
+        "and all flag settings, C05_write_only_last the DiplomatWrite rule. Tied to the code by exhaustively enumerating the type grammar to depth 2 x 6 "
+        "positions as tiny bridges through the real CLI for all seven backends' support profiles and both unsafe_references_in_callbacks settings "
+        "(~13k kernel-checked goals), plus the lifetime rules in every position of a return type, plus error-context checks.",
+   note="Trusted: Coq kernel+vm_compute; hand transcription in Gate/Model.v; gen/Tables.v translator for the support flags; traits not enumerated; "
+        "self-parameter and ZST-method rules modelled but not enumerated.",
+   design="§5 C05")
 NOT_YET = {
 }
 ALL = [f"C{i:02d}" for i in range(1, 18)]
